@@ -44,8 +44,9 @@ pub struct State {
     pub forced: u64,
 
     // ---- tracing
-    /// (header address, or 0 for the roots of a thread; heap that owns the roots of that thread)
-    pub trace_stack: Vec<(usize, Option<u64>)>,
+    /// (header address, or 0 for the roots of a thread; heap that owns the roots of that thread;
+    /// Rust type of the object)
+    pub trace_stack: Vec<(usize, Option<u64>, &'static str)>,
     pub edges_checked: u64,
     /// Visitor mode: `Gc::mark` neither sets mark bits nor stops at objects of ancestor
     /// generations, it visits every object reachable from the roots exactly once
@@ -109,6 +110,15 @@ pub fn set_next_parent(parent: u64) {
             s.pending_parent = Some(parent);
         }
     });
+}
+
+/// `gluon_vm::value::ClosureData` -> `ClosureData`
+fn short(kind: &str) -> String {
+    kind.split(|c: char| !(c.is_alphanumeric() || c == '_' || c == ':'))
+        .filter(|p| !p.is_empty())
+        .map(|p| p.rsplit("::").next().unwrap_or(p))
+        .collect::<Vec<_>>()
+        .join("_")
 }
 
 fn is_ancestor_or_self(s: &State, ancestor: u64, mut gc: u64) -> bool {
@@ -201,17 +211,17 @@ pub fn on_free(header: usize, size: usize) -> bool {
 
 /// A collection of `gc_id` reached the object at `header` (from the object on top of the trace
 /// stack or from a root)
-pub fn on_reach(gc_id: u64, header: usize) {
+pub fn on_reach(gc_id: u64, header: usize, kind: &'static str) {
     let _ = STATE.try_with(|s| {
         if let Ok(mut s) = s.try_borrow_mut() {
             if !s.enabled {
                 return;
             }
             if s.freed.contains(&header) {
-                let from = s.trace_stack.last().map(|t| t.0);
+                let from = s.trace_stack.last().map(|t| short(t.2)).unwrap_or_default();
                 s.violations.push(format!(
-                    "freed-but-reachable: collection of heap {} reached freed object {:#x} (from {:?})",
-                    gc_id, header, from
+                    "freed-but-reachable: collection of heap {} reached freed {} {:#x} (from {})",
+                    gc_id, short(kind), header, from
                 ));
                 return;
             }
@@ -220,7 +230,7 @@ pub fn on_reach(gc_id: u64, header: usize) {
                 Some(o) => *o,
                 None => return,
             };
-            if let Some(&(parent, roots_of)) = s.trace_stack.last() {
+            if let Some(&(parent, roots_of, _)) = s.trace_stack.last() {
                 // The stack and the rooted values of a thread belong to the heap of that thread,
                 // not to the heap the `Thread` object is allocated in
                 let parent_owner = roots_of
@@ -245,17 +255,17 @@ pub fn on_reach(gc_id: u64, header: usize) {
                         let path: Vec<String> = s
                             .trace_stack
                             .iter()
-                            .map(|&(h, r)| match r.or_else(|| s.thread_obj.get(&h).cloned()) {
+                            .map(|&(h, r, kind)| match r.or_else(|| s.thread_obj.get(&h).cloned()) {
                                 Some(gc) => format!("roots@depth{}", depth(gc)),
                                 None => match s.owner.get(&h) {
-                                    Some(gc) => format!("obj@depth{}", depth(*gc)),
-                                    None => "obj@?".to_string(),
+                                    Some(gc) => format!("{}@depth{}", short(kind), depth(*gc)),
+                                    None => format!("{}@?", short(kind)),
                                 },
                             })
                             .collect();
                         let message = format!(
-                            "heap-isolation: object in heap {} points into heap {} which is neither it nor one of its ancestors (from path {} -> obj@depth{})",
-                            parent_owner, child_owner, path.join(" -> "), depth(child_owner)
+                            "heap-isolation: object in heap {} points into heap {} which is neither it nor one of its ancestors (from path {} -> {}@depth{})",
+                            parent_owner, child_owner, path.join(" -> "), short(kind), depth(child_owner)
                         );
                         let message = if std::env::var_os("GLUON_VERIF_BACKTRACE").is_some() {
                             format!("{}\n{}", message, std::backtrace::Backtrace::force_capture())
@@ -272,12 +282,12 @@ pub fn on_reach(gc_id: u64, header: usize) {
 
 pub struct TraceGuard(bool);
 
-pub fn enter(header: usize) -> TraceGuard {
+pub fn enter(header: usize, kind: &'static str) -> TraceGuard {
     let pushed = STATE
         .try_with(|s| {
             if let Ok(mut s) = s.try_borrow_mut() {
                 if s.enabled {
-                    s.trace_stack.push((header, None));
+                    s.trace_stack.push((header, None, kind));
                     return true;
                 }
             }
@@ -305,7 +315,7 @@ pub fn enter_thread(gc_id: u64) -> TraceGuard {
         .try_with(|s| {
             if let Ok(mut s) = s.try_borrow_mut() {
                 if s.enabled {
-                    s.trace_stack.push((0, Some(gc_id)));
+                    s.trace_stack.push((0, Some(gc_id), "roots"));
                     return true;
                 }
             }
@@ -321,7 +331,7 @@ pub fn enter_roots(gc_id: u64) -> TraceGuard {
         .try_with(|s| {
             if let Ok(mut s) = s.try_borrow_mut() {
                 if s.enabled && s.trace_stack.last().map_or(true, |t| t.1.is_none()) {
-                    s.trace_stack.push((0, Some(gc_id)));
+                    s.trace_stack.push((0, Some(gc_id), "roots"));
                     return true;
                 }
             }
